@@ -29,6 +29,8 @@ func runC09(c *Ctx, r *Report) {
 	r.Doc("R-C09.5", "no trimming without a tested non-negative limit")
 	r.Doc("R-C09.6", "loaders and constructors carry the codec, the limit, the exclusions and the timeout over to the fetcher, and the codec, access controller and comparator over to the rebuilt log")
 	optionForwarding(c, r, "R-C09.6", append(append(loaderFetchSpecs(), constructorLoaderSpecs()...), constructorLogSpecs()...))
+	r.Doc("R-C09.7", "the fetch that rebuilds the log cannot stall or give up with hashes still queued: worker accounting, slot release before the mutex, re-checked condition waits")
+	importRules(c, r, "C11", []string{"R-C11.1", "R-C11.2", "R-C11.6"}, "R-C09.7")
 
 	loadOfField := func(v ssa.Value, owner *types.Named, field string) bool {
 		for x := range backSlice(v, nil) {
